@@ -141,7 +141,7 @@ func history(r *ev.Run, c *ev.Case, hi int) {
 	prevGen := map[string]bool{} // certificate blobs of the latest successful generation
 	sigParts := []string{fmt.Sprint(validity)}
 	for run := 0; run < nruns; run++ {
-		outcome := []string{"ok", "ok", "ok", "ca-error", "ca-panic", "agent-failure", "agent-close"}[rng.Intn(7)]
+		outcome := []string{"ok", "ok", "ok", "ca-error", "ca-panic", "agent-failure", "agent-close", "unconfigured-ca-algorithm"}[rng.Intn(8)]
 		signer := &gsrig.Signer{Agent: ag, NCerts: 1 + rng.Intn(4), NonCert: rng.Intn(8) == 0}
 		for k := rng.Intn(6); k > 0; k-- {
 			signer.Comments = append(signer.Comments, []string{"", "touch", "c-" + gen.Ident(rng, 3)}[rng.Intn(3)])
@@ -194,7 +194,11 @@ func history(r *ev.Run, c *ev.Case, hi int) {
 				}
 			}}
 		}
-		runErr, escaped := gsrig.Run(gsrig.Param(gsrig.ParamSpec{LogName: "alice", ReqUser: "u", ReqHost: "h", ClientIP: "10.1.1.1", TransID: gen.Ident(rng, 10), Policy: "NONS"}), []gensign.Handler{rig.Handler}, useSigner)
+		pspec := gsrig.ParamSpec{LogName: "alice", ReqUser: "u", ReqHost: "h", ClientIP: "10.1.1.1", TransID: gen.Ident(rng, 10), Policy: "NONS"}
+		if outcome == "unconfigured-ca-algorithm" {
+			pspec.CAAlgo = 3 // only "default" (0) has a key identifier in this configuration
+		}
+		runErr, escaped := gsrig.Run(gsrig.Param(pspec), []gensign.Handler{rig.Handler}, useSigner)
 		ag.SetPlan(nil)
 		after := snapshot(ag)
 		rec.After, rec.Result = len(after), gsrig.Kind(runErr)
@@ -207,7 +211,7 @@ func history(r *ev.Run, c *ev.Case, hi int) {
 			r.Violation(c, sig, detail+fmt.Sprintf("\nhistory: %+v", trace), map[string]any{"history": trace})
 		}
 		if escaped != "" {
-			bad("panic-escapes-run", escaped)
+			bad(gsrig.EscapeSig(escaped), escaped)
 			return
 		}
 		// foreign identities are never removed or altered
